@@ -2,11 +2,14 @@ package world
 
 import (
 	gocontext "context"
+	"errors"
 	"io"
 	"net/http"
 	"net/url"
 	"sort"
 	"strings"
+	"sync"
+	"time"
 
 	"verif/sim/internal/sched"
 )
@@ -20,8 +23,10 @@ func (w *World) Serve(q *Req) {
 	q.Escaped = ""
 	q.AsyncCancelAt = -1
 	q.fsCalls = 0
-	ctx, cancel := gocontext.WithCancel(gocontext.Background())
+	ctx := newSimCtx(q.CtxErr)
+	cancel := ctx.cancel
 	q.rawCancel = cancel
+	q.substituted = false
 	q.Local.Ref = q
 	q.Local.Init(q.PlannedCancel, func() {
 		q.AsyncCancelAt = q.Local.CIdx
@@ -62,6 +67,47 @@ func (w *World) Serve(q *Req) {
 	}()
 	cancel()
 	q.Served = true
+}
+
+// simCtx is the request's root context: a context.Context the simulator ends itself, with the
+// error the fault plan chose — context.Canceled (client went away), context.DeadlineExceeded
+// (an upstream deadline passed) or an error of its own (a custom context type). No timers.
+type simCtx struct {
+	done chan struct{}
+	mu   sync.Mutex
+	err  error
+	kind int
+}
+
+// ErrCtxCustom is what a custom context type may report once it is done.
+var ErrCtxCustom = errors.New("sim: upstream gave up")
+
+func newSimCtx(kind int) *simCtx { return &simCtx{done: make(chan struct{}), kind: kind} }
+
+func (c *simCtx) Deadline() (time.Time, bool)   { return time.Time{}, false }
+func (c *simCtx) Done() <-chan struct{}         { return c.done }
+func (c *simCtx) Value(interface{}) interface{} { return nil }
+func (c *simCtx) Err() error {
+	c.mu.Lock()
+	defer c.mu.Unlock()
+	return c.err
+}
+
+func (c *simCtx) cancel() {
+	c.mu.Lock()
+	defer c.mu.Unlock()
+	if c.err != nil {
+		return
+	}
+	switch c.kind {
+	case 1:
+		c.err = gocontext.DeadlineExceeded
+	case 2:
+		c.err = ErrCtxCustom
+	default:
+		c.err = gocontext.Canceled
+	}
+	close(c.done)
 }
 
 // replaceCancel makes later cancels (asynchronous or by a handler) hit the derived context a
@@ -177,4 +223,4 @@ func (q *Req) DescribeProgs() []string {
 
 // OpNames for reports.
 var OpNames = []string{"yield", "writeHeader", "write", "flush", "next", "nextSwallow", "cancel", "mapExtra", "seeExtra", "panic", "echo",
-	"mark", "checkMark", "setHeader", "before", "render", "redirect", "status", "cookie", "seeSvc", "seeHeaders", "mapIface", "seeIface", "invoke", "apply", "setContentLength", "seePath", "seeBody", "mapReturnHandler", "mutQuery", "replaceCtx"}
+	"mark", "checkMark", "setHeader", "before", "render", "redirect", "status", "cookie", "seeSvc", "seeHeaders", "mapIface", "seeIface", "invoke", "apply", "setContentLength", "expireCtx", "mapOwnWriter", "seePath", "seeBody", "mapReturnHandler", "mutQuery", "replaceCtx"}
